@@ -6,8 +6,11 @@ for d in seeded/C*; do
   id=$(basename "$d"); prop=$(echo "$id" | cut -c1-3)
   [ -f "$d/patch.diff" ] || continue
   git -C /repo apply "$PWD/$d/patch.diff" 2>/dev/null || { echo "$id: patch does not apply"; continue; }
-  out=$(timeout 1500 ./check "$prop" --tier quick 2>&1 | grep -c "^VIOLATION")
+  log=$(timeout 1500 ./check "$prop" --tier quick 2>&1)
+  out=$(echo "$log" | grep -c "^VIOLATION")
   git -C /repo checkout -- .
-  if [ "$out" -ge 1 ]; then echo "$id: CAUGHT by $prop"; else echo "$id: MISSED by $prop"; fi
+  kinds=$(echo "$log" | grep -o "violations ([^)]*)" | head -1)
+  nf=$(echo "$log" | grep "^VIOLATION" | grep -c "no-failing-input-found")
+  if [ "$out" -ge 1 ]; then echo "$id: CAUGHT by $prop  $kinds $([ "$nf" -ge 1 ] && echo '[no-failing-input-found]')"; else echo "$id: MISSED by $prop"; fi
 done
 git -C /repo status --short | head -3
